@@ -50,7 +50,9 @@ class Type(Scope):
         if (self.inherit is None) or (self.inherit_version == inherit_version):
             return
         self.inherit_version = inherit_version
-        self.inherit_var = find_in_scope(self.parent, self.inherit, obj_tree)
+        self.inherit_var = find_in_scope(
+            self.parent, self.inherit, obj_tree, obj_type=CLASS_TYPE_ID
+        )
         if self.inherit_var is not None:
             self._resolve_inherit_parent(obj_tree, inherit_version)
         else:
